@@ -466,13 +466,15 @@ def _agg(adt, variant, idx, ops):
     return {"k": "agg", "agg": "adt", "adt": adt, "variant": variant, "variant_idx": idx, "ops": ops, "fields": ["0"] if ops else []}
 
 
-def _closure_of(facts, j, defs, op):
+def _closure_of(facts, j, defs, op, extern_ok=False):
     c = op.get("const") if isinstance(op, dict) else None
     if c is not None and c.get("fn"):
         # a function item used as the closure: `iter.any(needs_reference)`
         fb = facts.by_id.get(c["fn"])
         if fb is not None and fb.kind in ("Fn", "AssocFn") and not any(x.kind.startswith("coroutine") for x in facts.children.get(fb.id, [])):
             return fb, {}
+        if fb is None and extern_ok and re.match(r"^(std|core|alloc)::", c["fn"]):
+            return _ExternFn(c["fn"]), {}
         return None, None
     src = _trace_value(j, defs, op)
     if src is None or src[0] != "agg" or src[2]["rv"].get("agg") != "closure":
@@ -483,7 +485,25 @@ def _closure_of(facts, j, defs, op):
     return cb, {k: o for k, o in enumerate(src[2]["rv"]["ops"])}
 
 
+class _ExternFn:
+    """a function item that is not defined in this crate (`String::new`, `Vec::new`, `Default::default` ...) used
+    where a closure is expected: desugared into an ordinary call of it"""
+    def __init__(self, name):
+        self.name = name
+        self.id = name
+        self.kind = "extern-fn"
+
+
+def _call_external(j, fn, at_block, args, dst_place, cont, line):
+    j["blocks"][at_block]["term"] = {"k": "call", "line": line, "fn_line": line, "synthetic": True,
+                                     "func": {"def": fn.name, "full": fn.name, "krate": fn.name.split("::")[0], "local": False, "gargs": [],
+                                              "resolved": fn.name, "resolved_full": fn.name, "resolved_kind": "Item"},
+                                     "args": [copy.deepcopy(a) for a in args], "dst": copy.deepcopy(dst_place), "target": cont}
+
+
 def _call_closure(facts, j, cb, upvar_ops, at_block, args, dst_place, cont, line):
+    if isinstance(cb, _ExternFn):
+        return _call_external(j, cb, at_block, args, dst_place, cont, line)
     """make block `at_block` jump into closure cb(args..) whose result goes to dst_place, continuing at `cont`"""
     cj = copy.deepcopy((facts.inlined.get(cb.id, cb) if hasattr(facts, "inlined") else cb).j)
 
@@ -540,10 +560,10 @@ def desugar_combinators(facts, body, max_rounds=3, max_blocks=6000, iterators=Tr
                 fpos = {"map_or": 2, "map_or_else": 2}.get(op, 1)
                 if len(args) <= fpos:
                     continue
-                cb, ups = _closure_of(facts, j, defs, args[fpos])
+                cb, ups = _closure_of(facts, j, defs, args[fpos], extern_ok=op in ("map", "map_err", "map_or", "map_or_else", "and_then"))
                 cb2 = ups2 = None
                 if op == "map_or_else":
-                    cb2, ups2 = _closure_of(facts, j, defs, args[1])
+                    cb2, ups2 = _closure_of(facts, j, defs, args[1], extern_ok=True)
                     if cb2 is None:
                         continue
                 if cb is None:
